@@ -247,6 +247,8 @@ def hmf_data(name, positive, mask):
     c1 = 1.0 + 0.3 * i
     noise = 0.02 * (((np.add.outer(7 * i, 3 * jj)) % 5) - 2.0)
     S = np.outer(c1, b1) + np.outer(c2, b2) + noise
+    if not positive:
+        S = S - 1.75          # the default mode must cope with negative fluxes (and must not clip them in the caller's array)
     W = 1.0 + 0.5 * ((np.add.outer(i, 2 * jj)) % 3)
     for (a, b) in mask:
         W[a, b] = 0.0
@@ -331,8 +333,13 @@ def ref_rows_optimum(D, w, y, extra_rows=None, extra_rhs=None):
     if extra_rows is not None:
         A = np.vstack([A, extra_rows])
         r = np.concatenate([r, extra_rhs])
-    sv = np.linalg.svd(A, compute_uv=False)
-    if not (sv[-1] > 0 and sv[0] / sv[-1] <= COND_MAX) or A.shape[0] < A.shape[1]:
+    if not (np.all(np.isfinite(A)) and np.all(np.isfinite(r))) or A.shape[0] < A.shape[1]:
+        raise IllConditioned()
+    try:
+        sv = np.linalg.svd(A, compute_uv=False)
+    except np.linalg.LinAlgError:
+        raise IllConditioned()
+    if not (sv[-1] > 0 and sv[0] / sv[-1] <= COND_MAX):
         raise IllConditioned()
     x = np.linalg.lstsq(A, r, rcond=None)[0]
     return float(np.sum((A.dot(x) - r) ** 2)), A, r
@@ -436,6 +443,15 @@ def do_transition(h, S, W, eps, op, a0, g0):
     return None, check_transition(S, W, eps, op, a0, g0, a1, g1), a1, g1
 
 
+def root_checks(cfg, h, S0, W0, S, W):
+    bad = []
+    if not (np.all(np.isfinite(np.asarray(h.a, dtype=float))) and np.all(np.isfinite(np.asarray(h.g, dtype=float)))):
+        bad.append(('HMF.init:non-finite-factors', 'nan/inf in the initial a or g'))
+    if cfg['mode'] == 'ls' and not (np.array_equal(S, S0) and np.array_equal(W, W0)):
+        bad.append(('HMF:caller-arrays-modified', 'spectra/invvar passed to HMF() were changed by the initialisation'))
+    return bad
+
+
 def check_hmf_path(case):
     """Replay: rebuild the root, walk `path`, check the last transition `op`."""
     cfg = root_cfg(case)
@@ -444,7 +460,7 @@ def check_hmf_path(case):
     except Exception as e:
         return [('HMF.init:exception:%s' % type(e).__name__, repr(e))], 'exc'
     if case['op'] == 'init':
-        return [], 'replayed'
+        return root_checks(cfg, h, S0, W0, S, W), 'replayed'
     Sx, Wx = np.asarray(h.spectra, dtype=float), np.asarray(h.invvar, dtype=float)
     for op in case['path']:
         apply_op(h, op)
@@ -470,6 +486,13 @@ def explore_hmf(acc, cfg, depth, seen):
         return
     Sx, Wx = np.asarray(h.spectra, dtype=float), np.asarray(h.invvar, dtype=float)
     a, g = np.array(h.a, dtype=float), np.array(h.g, dtype=float)
+    rbad = root_checks(cfg, h, S0, W0, S, W)
+    case = dict(base, path=[], op='init')
+    acc.case(_key(case), True, 'ok:hmf:root:%s' % cfg['mode'] if not rbad else 'bad:' + rbad[0][0])
+    for sg, msg in rbad:
+        acc.violation(sg, case, msg)
+    if rbad:
+        return
     if g.shape[0] != cfg['K']:
         acc.skip('hmf:root:kmeans-returned-fewer-centroids')
         return
